@@ -279,6 +279,22 @@ def run_case(ck, desc):
                 else:
                     ck.violation("comparison-curve", {"curve": "simulated recovery", "max_abs": float(np.max(np.abs(gy - rf)))}, desc)
             ck.count("comparison_figures")
+            # a second well drawn while the first figure is still open (same default well name): it
+            # gets a figure of its own with its own two panels, and the first figure keeps its curves
+            first_fig = [(gx.copy(), gy.copy()) for a_ in fig.axes for gx, gy in _lines(a_)]
+            prod_b = prod.copy()
+            prod_b["Gas"] = prod_b["Gas"] * 1.7 + 3.0
+            prod_b["Pressure"] = prod_b["Pressure"] * 0.8
+            with warnings.catch_warnings(), np.errstate(all="ignore"):
+                warnings.simplefilter("ignore")
+                fig_b, axes_b = plot_production_comparison(prod_b, pvt, P, filter_window_size=desc["window"], filter_zero_prod_days=desc["filter"])
+            n_lines_b = sum(len(_lines(a_)) for a_ in fig_b.axes)
+            again = [(gx, gy) for a_ in fig.axes for gx, gy in _lines(a_)]
+            if fig_b is fig or len(fig_b.axes) != 2 or n_lines_b != 3:
+                ck.violation("second-comparison-figure-is-its-own", {"same_figure_object": bool(fig_b is fig), "axes_in_returned_figure": len(fig_b.axes), "curves_in_returned_figure": n_lines_b}, desc)
+            elif len(again) != len(first_fig) or any(not (np.array_equal(a[0], b[0]) and np.array_equal(a[1], b[1], equal_nan=True)) for a, b in zip(first_fig, again)):
+                ck.violation("second-comparison-figure-is-its-own", {"first_figure_changed": True, "curves_before": len(first_fig), "curves_after": len(again)}, desc)
+            ck.count("comparison_figures_drawn_while_another_is_open")
             return True, {"rows_plotted": len(ts)}
 
         # ---- transform ------------------------------------------------------------------------
